@@ -25,6 +25,17 @@ const RL_ACTIVE: Shape = L21S.with_commit(1).with_applied(1).with_persisted(2).w
 const RS1_LEADER: Shape = Shape::follower3(2, 1).with_role(StateRole::Leader).with_conf(&[1], &[], &[], &[], false).with_terms(&[1, 2, 5]).with_term(5).with_commit(2).with_applied(2).with_persisted(2).with_flags(false, false, false);
 const RS1L: Shape = Shape::follower3(3, 0).with_conf(&[1], &[], &[2], &[], false).with_terms(&[1, 2, 3]).with_term(5).with_commit(3).with_applied(3).with_persisted(3).with_flags(false, false, false);
 const RS1: Shape = Shape::follower3(3, 0).with_conf(&[1], &[], &[], &[], false).with_terms(&[1, 2, 3]).with_term(5).with_commit(3).with_applied(3).with_persisted(3).with_flags(false, false, false);
+const FS: Shape = Shape::follower3(3, 0).with_terms(&[1, 2, 3]).with_term(5).with_commit(2).with_applied(1).with_persisted(3).with_flags(false, false, false);
+// leader over a compacted log (snapshot point 2, entries 3..=5 = 2 stable + 1 unstable), peer 2 needs entries that are gone
+const LC: Shape = Shape::follower3(2, 1).with_role(StateRole::Leader).with_base(2).with_terms(&[1, 2, 2, 2]).with_term(2).with_flags(false, false, false).with_commit(1).with_persisted(2);
+const LC_NEED: Shape = LC.with_peers(&[PeerShape::probe(2, 0).matched_abs(1).paused(), PeerShape::probe(3, 3).matched(2).paused()]);
+const L21_READ: Shape = L21S.with_commit(2).with_persisted(2).with_peers(&[PeerShape::replicate(2, 4, 0).matched(3), PeerShape::replicate(3, 4, 0).matched(3)]);
+const L21_READ_OLDTERM: Shape = L21.with_terms(&[1, 1, 2]).with_term(2).with_flags(false, false, false).with_commit(2).with_persisted(2).with_peers(&[PeerShape::replicate(2, 4, 0).matched(3), PeerShape::replicate(3, 4, 0).matched(3)]);
+const L5_READ: Shape = L21_READ.with_conf(&[1, 2, 3, 4, 5], &[], &[], &[], false).with_peers(&[PeerShape::replicate(2, 4, 0).matched(3), PeerShape::replicate(3, 4, 0).matched(3), PeerShape::replicate(4, 4, 0).matched(3), PeerShape::replicate(5, 4, 0).matched(3)]);
+const LJ_READ: Shape = L21_READ.with_conf(&[1, 2, 3], &[1, 3, 4], &[], &[], false).with_peers(&[PeerShape::replicate(2, 4, 0).matched(3), PeerShape::replicate(3, 4, 0).matched(3), PeerShape::replicate(4, 4, 0).matched(3)]);
+const LL_READ: Shape = L21_READ.with_conf(&[1, 2, 3], &[], &[4], &[], false).with_peers(&[PeerShape::replicate(2, 4, 0).matched(3), PeerShape::replicate(3, 4, 0).matched(3), PeerShape::replicate(4, 4, 0).matched(3)]);
+const S1_READ_OLD: Shape = Shape::follower3(3, 0).with_role(StateRole::Leader).with_conf(&[1], &[], &[], &[], false).with_terms(&[1, 2, 5]).with_term(5).with_commit(2).with_applied(2).with_persisted(3).with_flags(false, false, false);
+const S1_READ: Shape = S1_READ_OLD.with_commit(3);
 const CAND3: Shape = Shape::follower3(3, 0).with_role(StateRole::Candidate).with_term(5).with_terms(&[1, 2, 3]).with_commit(1).with_votes(&[(1, true)]);
 const PRE3: Shape = Shape::follower3(3, 0).with_role(StateRole::PreCandidate).with_term(5).with_terms(&[1, 2, 3]).with_commit(1).with_votes(&[(1, true)]);
 const CAND5: Shape = CAND3.with_conf(&[1, 2, 3, 4, 5], &[], &[], &[], false);
@@ -69,221 +80,217 @@ harnesses! {
     { selftest_fail, "SELFTEST", quick, unwind = 4, "planted violation for the witness-extraction self-test", |s| selftest::fail_branchy(s) }
     { selftest_pass, "SELFTEST", quick, unwind = 4, "trivial pass", |s| selftest::pass_trivial(s) }
     // ---------------- (pre-)vote requests: C03 / C02 / C16 ----------------
-    { vote_follower_real, "C03", quick, unwind = 8,
+    { vote_follower_real, "C03,C02,C16,C01,C06", quick, unwind = 8,
       "one Raft::step(MsgRequestVote) on a Follower of a 3-voter group, 3-entry log (symbolic terms and entry types), symbolic term/vote/leader/commit/timers/flags/priority, message term/index/log_term/commit/commit_term/context symbolic, sender a voter or unknown id",
       |s| c03::vote_step(s, &F21, false, None) }
-    { vote_follower_pre, "C03", quick, unwind = 8,
+    { vote_follower_pre, "C03,C02,C16,C01,C06", quick, unwind = 8,
       "one Raft::step(MsgRequestPreVote) on a Follower of a 3-voter group, 3-entry log (symbolic terms and entry types), symbolic term/vote/leader/commit/timers/flags/priority, message term/index/log_term/commit/commit_term/context symbolic, sender a voter or unknown id",
       |s| c03::vote_step(s, &F21, true, None) }
-    { vote_candidate_real_eq_c3m, "C03", quick, unwind = 8,
+    { vote_candidate_real_eq_c3m, "C03,C02,C16,C01,C06", quick, unwind = 8,
       "one Raft::step(MsgRequestVote) on a Candidate (term 5) of a 3-voter group, message term 5, 3-entry log (terms [1,2,3], entry 3 a ConfChangeV2 for (pre)candidates; [1,2,5] for leaders), commit = 1, m.commit = 3 with m.commit_term = local term there (fast-forward); symbolic vote/leader/timers/flags/priority, m.index/log_term/context, sender a voter or unknown id",
       |s| c03::vote_step_x(s, &F30C1.with_role(StateRole::Candidate).with_term(5), false, Some(3), Some(5), true) }
-    { vote_candidate_real_eq_c3z, "C03", thorough, unwind = 8,
+    { vote_candidate_real_eq_c3z, "C03,C02,C16,C01,C06", thorough, unwind = 8,
       "one Raft::step(MsgRequestVote) on a Candidate (term 5) of a 3-voter group, message term 5, 3-entry log (terms [1,2,3], entry 3 a ConfChangeV2 for (pre)candidates; [1,2,5] for leaders), commit = 1, m.commit = 3 with m.commit_term = 0; symbolic vote/leader/timers/flags/priority, m.index/log_term/context, sender a voter or unknown id",
       |s| c03::vote_step_x(s, &F30C1.with_role(StateRole::Candidate).with_term(5), false, Some(3), Some(5), false) }
-    { vote_candidate_real_eq_c2m, "C03", thorough, unwind = 8,
+    { vote_candidate_real_eq_c2m, "C03,C02,C16,C01,C06", thorough, unwind = 8,
       "one Raft::step(MsgRequestVote) on a Candidate (term 5) of a 3-voter group, message term 5, 3-entry log (terms [1,2,3], entry 3 a ConfChangeV2 for (pre)candidates; [1,2,5] for leaders), commit = 1, m.commit = 2 with m.commit_term = local term there (fast-forward); symbolic vote/leader/timers/flags/priority, m.index/log_term/context, sender a voter or unknown id",
       |s| c03::vote_step_x(s, &F30C1.with_role(StateRole::Candidate).with_term(5), false, Some(2), Some(5), true) }
-    { vote_candidate_real_hi_c3m, "C03", quick, unwind = 8,
+    { vote_candidate_real_hi_c3m, "C03,C02,C16,C01,C06", quick, unwind = 8,
       "one Raft::step(MsgRequestVote) on a Candidate (term 5) of a 3-voter group, message term 7, 3-entry log (terms [1,2,3], entry 3 a ConfChangeV2 for (pre)candidates; [1,2,5] for leaders), commit = 1, m.commit = 3 with m.commit_term = local term there (fast-forward); symbolic vote/leader/timers/flags/priority, m.index/log_term/context, sender a voter or unknown id",
       |s| c03::vote_step_x(s, &F30C1.with_role(StateRole::Candidate).with_term(5), false, Some(3), Some(7), true) }
-    { vote_candidate_real_hi_c3z, "C03", thorough, unwind = 8,
+    { vote_candidate_real_hi_c3z, "C03,C02,C16,C01,C06", thorough, unwind = 8,
       "one Raft::step(MsgRequestVote) on a Candidate (term 5) of a 3-voter group, message term 7, 3-entry log (terms [1,2,3], entry 3 a ConfChangeV2 for (pre)candidates; [1,2,5] for leaders), commit = 1, m.commit = 3 with m.commit_term = 0; symbolic vote/leader/timers/flags/priority, m.index/log_term/context, sender a voter or unknown id",
       |s| c03::vote_step_x(s, &F30C1.with_role(StateRole::Candidate).with_term(5), false, Some(3), Some(7), false) }
-    { vote_candidate_real_hi_c2m, "C03", thorough, unwind = 8,
+    { vote_candidate_real_hi_c2m, "C03,C02,C16,C01,C06", thorough, unwind = 8,
       "one Raft::step(MsgRequestVote) on a Candidate (term 5) of a 3-voter group, message term 7, 3-entry log (terms [1,2,3], entry 3 a ConfChangeV2 for (pre)candidates; [1,2,5] for leaders), commit = 1, m.commit = 2 with m.commit_term = local term there (fast-forward); symbolic vote/leader/timers/flags/priority, m.index/log_term/context, sender a voter or unknown id",
       |s| c03::vote_step_x(s, &F30C1.with_role(StateRole::Candidate).with_term(5), false, Some(2), Some(7), true) }
-    { vote_candidate_real_lo_c3m, "C03", thorough, unwind = 8,
+    { vote_candidate_real_lo_c3m, "C03,C02,C16,C01,C06", thorough, unwind = 8,
       "one Raft::step(MsgRequestVote) on a Candidate (term 5) of a 3-voter group, message term 3, 3-entry log (terms [1,2,3], entry 3 a ConfChangeV2 for (pre)candidates; [1,2,5] for leaders), commit = 1, m.commit = 3 with m.commit_term = local term there (fast-forward); symbolic vote/leader/timers/flags/priority, m.index/log_term/context, sender a voter or unknown id",
       |s| c03::vote_step_x(s, &F30C1.with_role(StateRole::Candidate).with_term(5), false, Some(3), Some(3), true) }
-    { vote_candidate_pre_eq_c3m, "C03", quick, unwind = 8,
+    { vote_candidate_pre_eq_c3m, "C03,C02,C16,C01,C06", quick, unwind = 8,
       "one Raft::step(MsgRequestPreVote) on a Candidate (term 5) of a 3-voter group, message term 5, 3-entry log (terms [1,2,3], entry 3 a ConfChangeV2 for (pre)candidates; [1,2,5] for leaders), commit = 1, m.commit = 3 with m.commit_term = local term there (fast-forward); symbolic vote/leader/timers/flags/priority, m.index/log_term/context, sender a voter or unknown id",
       |s| c03::vote_step_x(s, &F30C1.with_role(StateRole::Candidate).with_term(5), true, Some(3), Some(5), true) }
-    { vote_candidate_pre_eq_c3z, "C03", thorough, unwind = 8,
+    { vote_candidate_pre_eq_c3z, "C03,C02,C16,C01,C06", thorough, unwind = 8,
       "one Raft::step(MsgRequestPreVote) on a Candidate (term 5) of a 3-voter group, message term 5, 3-entry log (terms [1,2,3], entry 3 a ConfChangeV2 for (pre)candidates; [1,2,5] for leaders), commit = 1, m.commit = 3 with m.commit_term = 0; symbolic vote/leader/timers/flags/priority, m.index/log_term/context, sender a voter or unknown id",
       |s| c03::vote_step_x(s, &F30C1.with_role(StateRole::Candidate).with_term(5), true, Some(3), Some(5), false) }
-    { vote_candidate_pre_eq_c2m, "C03", thorough, unwind = 8,
+    { vote_candidate_pre_eq_c2m, "C03,C02,C16,C01,C06", thorough, unwind = 8,
       "one Raft::step(MsgRequestPreVote) on a Candidate (term 5) of a 3-voter group, message term 5, 3-entry log (terms [1,2,3], entry 3 a ConfChangeV2 for (pre)candidates; [1,2,5] for leaders), commit = 1, m.commit = 2 with m.commit_term = local term there (fast-forward); symbolic vote/leader/timers/flags/priority, m.index/log_term/context, sender a voter or unknown id",
       |s| c03::vote_step_x(s, &F30C1.with_role(StateRole::Candidate).with_term(5), true, Some(2), Some(5), true) }
-    { vote_candidate_pre_hi_c3m, "C03", quick, unwind = 8,
+    { vote_candidate_pre_hi_c3m, "C03,C02,C16,C01,C06", quick, unwind = 8,
       "one Raft::step(MsgRequestPreVote) on a Candidate (term 5) of a 3-voter group, message term 7, 3-entry log (terms [1,2,3], entry 3 a ConfChangeV2 for (pre)candidates; [1,2,5] for leaders), commit = 1, m.commit = 3 with m.commit_term = local term there (fast-forward); symbolic vote/leader/timers/flags/priority, m.index/log_term/context, sender a voter or unknown id",
       |s| c03::vote_step_x(s, &F30C1.with_role(StateRole::Candidate).with_term(5), true, Some(3), Some(7), true) }
-    { vote_candidate_pre_hi_c3z, "C03", thorough, unwind = 8,
+    { vote_candidate_pre_hi_c3z, "C03,C02,C16,C01,C06", thorough, unwind = 8,
       "one Raft::step(MsgRequestPreVote) on a Candidate (term 5) of a 3-voter group, message term 7, 3-entry log (terms [1,2,3], entry 3 a ConfChangeV2 for (pre)candidates; [1,2,5] for leaders), commit = 1, m.commit = 3 with m.commit_term = 0; symbolic vote/leader/timers/flags/priority, m.index/log_term/context, sender a voter or unknown id",
       |s| c03::vote_step_x(s, &F30C1.with_role(StateRole::Candidate).with_term(5), true, Some(3), Some(7), false) }
-    { vote_candidate_pre_hi_c2m, "C03", thorough, unwind = 8,
+    { vote_candidate_pre_hi_c2m, "C03,C02,C16,C01,C06", thorough, unwind = 8,
       "one Raft::step(MsgRequestPreVote) on a Candidate (term 5) of a 3-voter group, message term 7, 3-entry log (terms [1,2,3], entry 3 a ConfChangeV2 for (pre)candidates; [1,2,5] for leaders), commit = 1, m.commit = 2 with m.commit_term = local term there (fast-forward); symbolic vote/leader/timers/flags/priority, m.index/log_term/context, sender a voter or unknown id",
       |s| c03::vote_step_x(s, &F30C1.with_role(StateRole::Candidate).with_term(5), true, Some(2), Some(7), true) }
-    { vote_candidate_pre_lo_c3m, "C03", quick, unwind = 8,
+    { vote_candidate_pre_lo_c3m, "C03,C02,C16,C01,C06", quick, unwind = 8,
       "one Raft::step(MsgRequestPreVote) on a Candidate (term 5) of a 3-voter group, message term 3, 3-entry log (terms [1,2,3], entry 3 a ConfChangeV2 for (pre)candidates; [1,2,5] for leaders), commit = 1, m.commit = 3 with m.commit_term = local term there (fast-forward); symbolic vote/leader/timers/flags/priority, m.index/log_term/context, sender a voter or unknown id",
       |s| c03::vote_step_x(s, &F30C1.with_role(StateRole::Candidate).with_term(5), true, Some(3), Some(3), true) }
-    { vote_precandidate_real_eq_c3m, "C03", quick, unwind = 8,
+    { vote_precandidate_real_eq_c3m, "C03,C02,C16,C01,C06", quick, unwind = 8,
       "one Raft::step(MsgRequestVote) on a PreCandidate (term 5) of a 3-voter group, message term 5, 3-entry log (terms [1,2,3], entry 3 a ConfChangeV2 for (pre)candidates; [1,2,5] for leaders), commit = 1, m.commit = 3 with m.commit_term = local term there (fast-forward); symbolic vote/leader/timers/flags/priority, m.index/log_term/context, sender a voter or unknown id",
       |s| c03::vote_step_x(s, &F30C1.with_role(StateRole::PreCandidate).with_term(5), false, Some(3), Some(5), true) }
-    { vote_precandidate_real_eq_c3z, "C03", thorough, unwind = 8,
+    { vote_precandidate_real_eq_c3z, "C03,C02,C16,C01,C06", thorough, unwind = 8,
       "one Raft::step(MsgRequestVote) on a PreCandidate (term 5) of a 3-voter group, message term 5, 3-entry log (terms [1,2,3], entry 3 a ConfChangeV2 for (pre)candidates; [1,2,5] for leaders), commit = 1, m.commit = 3 with m.commit_term = 0; symbolic vote/leader/timers/flags/priority, m.index/log_term/context, sender a voter or unknown id",
       |s| c03::vote_step_x(s, &F30C1.with_role(StateRole::PreCandidate).with_term(5), false, Some(3), Some(5), false) }
-    { vote_precandidate_real_eq_c2m, "C03", thorough, unwind = 8,
+    { vote_precandidate_real_eq_c2m, "C03,C02,C16,C01,C06", thorough, unwind = 8,
       "one Raft::step(MsgRequestVote) on a PreCandidate (term 5) of a 3-voter group, message term 5, 3-entry log (terms [1,2,3], entry 3 a ConfChangeV2 for (pre)candidates; [1,2,5] for leaders), commit = 1, m.commit = 2 with m.commit_term = local term there (fast-forward); symbolic vote/leader/timers/flags/priority, m.index/log_term/context, sender a voter or unknown id",
       |s| c03::vote_step_x(s, &F30C1.with_role(StateRole::PreCandidate).with_term(5), false, Some(2), Some(5), true) }
-    { vote_precandidate_real_hi_c3m, "C03", quick, unwind = 8,
+    { vote_precandidate_real_hi_c3m, "C03,C02,C16,C01,C06", quick, unwind = 8,
       "one Raft::step(MsgRequestVote) on a PreCandidate (term 5) of a 3-voter group, message term 7, 3-entry log (terms [1,2,3], entry 3 a ConfChangeV2 for (pre)candidates; [1,2,5] for leaders), commit = 1, m.commit = 3 with m.commit_term = local term there (fast-forward); symbolic vote/leader/timers/flags/priority, m.index/log_term/context, sender a voter or unknown id",
       |s| c03::vote_step_x(s, &F30C1.with_role(StateRole::PreCandidate).with_term(5), false, Some(3), Some(7), true) }
-    { vote_precandidate_real_hi_c3z, "C03", thorough, unwind = 8,
+    { vote_precandidate_real_hi_c3z, "C03,C02,C16,C01,C06", thorough, unwind = 8,
       "one Raft::step(MsgRequestVote) on a PreCandidate (term 5) of a 3-voter group, message term 7, 3-entry log (terms [1,2,3], entry 3 a ConfChangeV2 for (pre)candidates; [1,2,5] for leaders), commit = 1, m.commit = 3 with m.commit_term = 0; symbolic vote/leader/timers/flags/priority, m.index/log_term/context, sender a voter or unknown id",
       |s| c03::vote_step_x(s, &F30C1.with_role(StateRole::PreCandidate).with_term(5), false, Some(3), Some(7), false) }
-    { vote_precandidate_real_hi_c2m, "C03", thorough, unwind = 8,
+    { vote_precandidate_real_hi_c2m, "C03,C02,C16,C01,C06", thorough, unwind = 8,
       "one Raft::step(MsgRequestVote) on a PreCandidate (term 5) of a 3-voter group, message term 7, 3-entry log (terms [1,2,3], entry 3 a ConfChangeV2 for (pre)candidates; [1,2,5] for leaders), commit = 1, m.commit = 2 with m.commit_term = local term there (fast-forward); symbolic vote/leader/timers/flags/priority, m.index/log_term/context, sender a voter or unknown id",
       |s| c03::vote_step_x(s, &F30C1.with_role(StateRole::PreCandidate).with_term(5), false, Some(2), Some(7), true) }
-    { vote_precandidate_real_lo_c3m, "C03", thorough, unwind = 8,
+    { vote_precandidate_real_lo_c3m, "C03,C02,C16,C01,C06", thorough, unwind = 8,
       "one Raft::step(MsgRequestVote) on a PreCandidate (term 5) of a 3-voter group, message term 3, 3-entry log (terms [1,2,3], entry 3 a ConfChangeV2 for (pre)candidates; [1,2,5] for leaders), commit = 1, m.commit = 3 with m.commit_term = local term there (fast-forward); symbolic vote/leader/timers/flags/priority, m.index/log_term/context, sender a voter or unknown id",
       |s| c03::vote_step_x(s, &F30C1.with_role(StateRole::PreCandidate).with_term(5), false, Some(3), Some(3), true) }
-    { vote_precandidate_pre_eq_c3m, "C03", quick, unwind = 8,
+    { vote_precandidate_pre_eq_c3m, "C03,C02,C16,C01,C06", quick, unwind = 8,
       "one Raft::step(MsgRequestPreVote) on a PreCandidate (term 5) of a 3-voter group, message term 5, 3-entry log (terms [1,2,3], entry 3 a ConfChangeV2 for (pre)candidates; [1,2,5] for leaders), commit = 1, m.commit = 3 with m.commit_term = local term there (fast-forward); symbolic vote/leader/timers/flags/priority, m.index/log_term/context, sender a voter or unknown id",
       |s| c03::vote_step_x(s, &F30C1.with_role(StateRole::PreCandidate).with_term(5), true, Some(3), Some(5), true) }
-    { vote_precandidate_pre_eq_c3z, "C03", thorough, unwind = 8,
+    { vote_precandidate_pre_eq_c3z, "C03,C02,C16,C01,C06", thorough, unwind = 8,
       "one Raft::step(MsgRequestPreVote) on a PreCandidate (term 5) of a 3-voter group, message term 5, 3-entry log (terms [1,2,3], entry 3 a ConfChangeV2 for (pre)candidates; [1,2,5] for leaders), commit = 1, m.commit = 3 with m.commit_term = 0; symbolic vote/leader/timers/flags/priority, m.index/log_term/context, sender a voter or unknown id",
       |s| c03::vote_step_x(s, &F30C1.with_role(StateRole::PreCandidate).with_term(5), true, Some(3), Some(5), false) }
-    { vote_precandidate_pre_eq_c2m, "C03", thorough, unwind = 8,
+    { vote_precandidate_pre_eq_c2m, "C03,C02,C16,C01,C06", thorough, unwind = 8,
       "one Raft::step(MsgRequestPreVote) on a PreCandidate (term 5) of a 3-voter group, message term 5, 3-entry log (terms [1,2,3], entry 3 a ConfChangeV2 for (pre)candidates; [1,2,5] for leaders), commit = 1, m.commit = 2 with m.commit_term = local term there (fast-forward); symbolic vote/leader/timers/flags/priority, m.index/log_term/context, sender a voter or unknown id",
       |s| c03::vote_step_x(s, &F30C1.with_role(StateRole::PreCandidate).with_term(5), true, Some(2), Some(5), true) }
-    { vote_precandidate_pre_hi_c3m, "C03", quick, unwind = 8,
+    { vote_precandidate_pre_hi_c3m, "C03,C02,C16,C01,C06", quick, unwind = 8,
       "one Raft::step(MsgRequestPreVote) on a PreCandidate (term 5) of a 3-voter group, message term 7, 3-entry log (terms [1,2,3], entry 3 a ConfChangeV2 for (pre)candidates; [1,2,5] for leaders), commit = 1, m.commit = 3 with m.commit_term = local term there (fast-forward); symbolic vote/leader/timers/flags/priority, m.index/log_term/context, sender a voter or unknown id",
       |s| c03::vote_step_x(s, &F30C1.with_role(StateRole::PreCandidate).with_term(5), true, Some(3), Some(7), true) }
-    { vote_precandidate_pre_hi_c3z, "C03", thorough, unwind = 8,
+    { vote_precandidate_pre_hi_c3z, "C03,C02,C16,C01,C06", thorough, unwind = 8,
       "one Raft::step(MsgRequestPreVote) on a PreCandidate (term 5) of a 3-voter group, message term 7, 3-entry log (terms [1,2,3], entry 3 a ConfChangeV2 for (pre)candidates; [1,2,5] for leaders), commit = 1, m.commit = 3 with m.commit_term = 0; symbolic vote/leader/timers/flags/priority, m.index/log_term/context, sender a voter or unknown id",
       |s| c03::vote_step_x(s, &F30C1.with_role(StateRole::PreCandidate).with_term(5), true, Some(3), Some(7), false) }
-    { vote_precandidate_pre_hi_c2m, "C03", thorough, unwind = 8,
+    { vote_precandidate_pre_hi_c2m, "C03,C02,C16,C01,C06", thorough, unwind = 8,
       "one Raft::step(MsgRequestPreVote) on a PreCandidate (term 5) of a 3-voter group, message term 7, 3-entry log (terms [1,2,3], entry 3 a ConfChangeV2 for (pre)candidates; [1,2,5] for leaders), commit = 1, m.commit = 2 with m.commit_term = local term there (fast-forward); symbolic vote/leader/timers/flags/priority, m.index/log_term/context, sender a voter or unknown id",
       |s| c03::vote_step_x(s, &F30C1.with_role(StateRole::PreCandidate).with_term(5), true, Some(2), Some(7), true) }
-    { vote_precandidate_pre_lo_c3m, "C03", quick, unwind = 8,
+    { vote_precandidate_pre_lo_c3m, "C03,C02,C16,C01,C06", quick, unwind = 8,
       "one Raft::step(MsgRequestPreVote) on a PreCandidate (term 5) of a 3-voter group, message term 3, 3-entry log (terms [1,2,3], entry 3 a ConfChangeV2 for (pre)candidates; [1,2,5] for leaders), commit = 1, m.commit = 3 with m.commit_term = local term there (fast-forward); symbolic vote/leader/timers/flags/priority, m.index/log_term/context, sender a voter or unknown id",
       |s| c03::vote_step_x(s, &F30C1.with_role(StateRole::PreCandidate).with_term(5), true, Some(3), Some(3), true) }
-    { vote_leader_real_eq_c3m, "C03", quick, unwind = 8,
+    { vote_leader_real_eq_c3m, "C03,C02,C16,C01,C06", quick, unwind = 8,
       "one Raft::step(MsgRequestVote) on a Leader (term 5) of a 3-voter group, message term 5, 3-entry log (terms [1,2,3], entry 3 a ConfChangeV2 for (pre)candidates; [1,2,5] for leaders), commit = 1, m.commit = 3 with m.commit_term = local term there (fast-forward); symbolic vote/leader/timers/flags/priority, m.index/log_term/context, sender a voter or unknown id",
       |s| c03::vote_step_x(s, &F21C1.with_role(StateRole::Leader).with_term(5), false, Some(3), Some(5), true) }
-    { vote_leader_real_eq_c3z, "C03", thorough, unwind = 8,
+    { vote_leader_real_eq_c3z, "C03,C02,C16,C01,C06", thorough, unwind = 8,
       "one Raft::step(MsgRequestVote) on a Leader (term 5) of a 3-voter group, message term 5, 3-entry log (terms [1,2,3], entry 3 a ConfChangeV2 for (pre)candidates; [1,2,5] for leaders), commit = 1, m.commit = 3 with m.commit_term = 0; symbolic vote/leader/timers/flags/priority, m.index/log_term/context, sender a voter or unknown id",
       |s| c03::vote_step_x(s, &F21C1.with_role(StateRole::Leader).with_term(5), false, Some(3), Some(5), false) }
-    { vote_leader_real_eq_c2m, "C03", thorough, unwind = 8,
+    { vote_leader_real_eq_c2m, "C03,C02,C16,C01,C06", thorough, unwind = 8,
       "one Raft::step(MsgRequestVote) on a Leader (term 5) of a 3-voter group, message term 5, 3-entry log (terms [1,2,3], entry 3 a ConfChangeV2 for (pre)candidates; [1,2,5] for leaders), commit = 1, m.commit = 2 with m.commit_term = local term there (fast-forward); symbolic vote/leader/timers/flags/priority, m.index/log_term/context, sender a voter or unknown id",
       |s| c03::vote_step_x(s, &F21C1.with_role(StateRole::Leader).with_term(5), false, Some(2), Some(5), true) }
-    { vote_leader_real_hi_c3m, "C03", quick, unwind = 8,
+    { vote_leader_real_hi_c3m, "C03,C02,C16,C01,C06", quick, unwind = 8,
       "one Raft::step(MsgRequestVote) on a Leader (term 5) of a 3-voter group, message term 7, 3-entry log (terms [1,2,3], entry 3 a ConfChangeV2 for (pre)candidates; [1,2,5] for leaders), commit = 1, m.commit = 3 with m.commit_term = local term there (fast-forward); symbolic vote/leader/timers/flags/priority, m.index/log_term/context, sender a voter or unknown id",
       |s| c03::vote_step_x(s, &F21C1.with_role(StateRole::Leader).with_term(5), false, Some(3), Some(7), true) }
-    { vote_leader_real_hi_c3z, "C03", thorough, unwind = 8,
+    { vote_leader_real_hi_c3z, "C03,C02,C16,C01,C06", thorough, unwind = 8,
       "one Raft::step(MsgRequestVote) on a Leader (term 5) of a 3-voter group, message term 7, 3-entry log (terms [1,2,3], entry 3 a ConfChangeV2 for (pre)candidates; [1,2,5] for leaders), commit = 1, m.commit = 3 with m.commit_term = 0; symbolic vote/leader/timers/flags/priority, m.index/log_term/context, sender a voter or unknown id",
       |s| c03::vote_step_x(s, &F21C1.with_role(StateRole::Leader).with_term(5), false, Some(3), Some(7), false) }
-    { vote_leader_real_hi_c2m, "C03", thorough, unwind = 8,
+    { vote_leader_real_hi_c2m, "C03,C02,C16,C01,C06", thorough, unwind = 8,
       "one Raft::step(MsgRequestVote) on a Leader (term 5) of a 3-voter group, message term 7, 3-entry log (terms [1,2,3], entry 3 a ConfChangeV2 for (pre)candidates; [1,2,5] for leaders), commit = 1, m.commit = 2 with m.commit_term = local term there (fast-forward); symbolic vote/leader/timers/flags/priority, m.index/log_term/context, sender a voter or unknown id",
       |s| c03::vote_step_x(s, &F21C1.with_role(StateRole::Leader).with_term(5), false, Some(2), Some(7), true) }
-    { vote_leader_real_lo_c3m, "C03", thorough, unwind = 8,
+    { vote_leader_real_lo_c3m, "C03,C02,C16,C01,C06", thorough, unwind = 8,
       "one Raft::step(MsgRequestVote) on a Leader (term 5) of a 3-voter group, message term 3, 3-entry log (terms [1,2,3], entry 3 a ConfChangeV2 for (pre)candidates; [1,2,5] for leaders), commit = 1, m.commit = 3 with m.commit_term = local term there (fast-forward); symbolic vote/leader/timers/flags/priority, m.index/log_term/context, sender a voter or unknown id",
       |s| c03::vote_step_x(s, &F21C1.with_role(StateRole::Leader).with_term(5), false, Some(3), Some(3), true) }
-    { vote_leader_pre_eq_c3m, "C03", quick, unwind = 8,
+    { vote_leader_pre_eq_c3m, "C03,C02,C16,C01,C06", quick, unwind = 8,
       "one Raft::step(MsgRequestPreVote) on a Leader (term 5) of a 3-voter group, message term 5, 3-entry log (terms [1,2,3], entry 3 a ConfChangeV2 for (pre)candidates; [1,2,5] for leaders), commit = 1, m.commit = 3 with m.commit_term = local term there (fast-forward); symbolic vote/leader/timers/flags/priority, m.index/log_term/context, sender a voter or unknown id",
       |s| c03::vote_step_x(s, &F21C1.with_role(StateRole::Leader).with_term(5), true, Some(3), Some(5), true) }
-    { vote_leader_pre_eq_c3z, "C03", thorough, unwind = 8,
+    { vote_leader_pre_eq_c3z, "C03,C02,C16,C01,C06", thorough, unwind = 8,
       "one Raft::step(MsgRequestPreVote) on a Leader (term 5) of a 3-voter group, message term 5, 3-entry log (terms [1,2,3], entry 3 a ConfChangeV2 for (pre)candidates; [1,2,5] for leaders), commit = 1, m.commit = 3 with m.commit_term = 0; symbolic vote/leader/timers/flags/priority, m.index/log_term/context, sender a voter or unknown id",
       |s| c03::vote_step_x(s, &F21C1.with_role(StateRole::Leader).with_term(5), true, Some(3), Some(5), false) }
-    { vote_leader_pre_eq_c2m, "C03", thorough, unwind = 8,
+    { vote_leader_pre_eq_c2m, "C03,C02,C16,C01,C06", thorough, unwind = 8,
       "one Raft::step(MsgRequestPreVote) on a Leader (term 5) of a 3-voter group, message term 5, 3-entry log (terms [1,2,3], entry 3 a ConfChangeV2 for (pre)candidates; [1,2,5] for leaders), commit = 1, m.commit = 2 with m.commit_term = local term there (fast-forward); symbolic vote/leader/timers/flags/priority, m.index/log_term/context, sender a voter or unknown id",
       |s| c03::vote_step_x(s, &F21C1.with_role(StateRole::Leader).with_term(5), true, Some(2), Some(5), true) }
-    { vote_leader_pre_hi_c3m, "C03", quick, unwind = 8,
+    { vote_leader_pre_hi_c3m, "C03,C02,C16,C01,C06", quick, unwind = 8,
       "one Raft::step(MsgRequestPreVote) on a Leader (term 5) of a 3-voter group, message term 7, 3-entry log (terms [1,2,3], entry 3 a ConfChangeV2 for (pre)candidates; [1,2,5] for leaders), commit = 1, m.commit = 3 with m.commit_term = local term there (fast-forward); symbolic vote/leader/timers/flags/priority, m.index/log_term/context, sender a voter or unknown id",
       |s| c03::vote_step_x(s, &F21C1.with_role(StateRole::Leader).with_term(5), true, Some(3), Some(7), true) }
-    { vote_leader_pre_hi_c3z, "C03", thorough, unwind = 8,
+    { vote_leader_pre_hi_c3z, "C03,C02,C16,C01,C06", thorough, unwind = 8,
       "one Raft::step(MsgRequestPreVote) on a Leader (term 5) of a 3-voter group, message term 7, 3-entry log (terms [1,2,3], entry 3 a ConfChangeV2 for (pre)candidates; [1,2,5] for leaders), commit = 1, m.commit = 3 with m.commit_term = 0; symbolic vote/leader/timers/flags/priority, m.index/log_term/context, sender a voter or unknown id",
       |s| c03::vote_step_x(s, &F21C1.with_role(StateRole::Leader).with_term(5), true, Some(3), Some(7), false) }
-    { vote_leader_pre_hi_c2m, "C03", thorough, unwind = 8,
+    { vote_leader_pre_hi_c2m, "C03,C02,C16,C01,C06", thorough, unwind = 8,
       "one Raft::step(MsgRequestPreVote) on a Leader (term 5) of a 3-voter group, message term 7, 3-entry log (terms [1,2,3], entry 3 a ConfChangeV2 for (pre)candidates; [1,2,5] for leaders), commit = 1, m.commit = 2 with m.commit_term = local term there (fast-forward); symbolic vote/leader/timers/flags/priority, m.index/log_term/context, sender a voter or unknown id",
       |s| c03::vote_step_x(s, &F21C1.with_role(StateRole::Leader).with_term(5), true, Some(2), Some(7), true) }
-    { vote_leader_pre_lo_c3m, "C03", quick, unwind = 8,
+    { vote_leader_pre_lo_c3m, "C03,C02,C16,C01,C06", quick, unwind = 8,
       "one Raft::step(MsgRequestPreVote) on a Leader (term 5) of a 3-voter group, message term 3, 3-entry log (terms [1,2,3], entry 3 a ConfChangeV2 for (pre)candidates; [1,2,5] for leaders), commit = 1, m.commit = 3 with m.commit_term = local term there (fast-forward); symbolic vote/leader/timers/flags/priority, m.index/log_term/context, sender a voter or unknown id",
       |s| c03::vote_step_x(s, &F21C1.with_role(StateRole::Leader).with_term(5), true, Some(3), Some(3), true) }
     // ---------------- follower append / heartbeat: C05 / C04 / C01 ----------------
-    { append_dup, "C05", quick, unwind = 8,
+    { append_dup, "C05,C01,C04,C14", quick, unwind = 8,
       "one Raft::step(MsgAppend) on a follower (3 voters; log terms [1,2,3] = 2 stable + 1 unstable; symbolic term/vote/leader/commit/applied/persisted/timers/flags; message term, commit, entry types symbolic): prev=(1,1), entry terms [2, 3] - duplicate of entries the log already holds (nothing may be truncated); post-state compared with a sequence model",
       |s| c05::append_step(s, &F21T, 1, 1, &[2, 3], c05::O_DUP) }
-    { append_conf_unstable, "C05", quick, unwind = 8,
+    { append_conf_unstable, "C05,C01,C04,C14", quick, unwind = 8,
       "one Raft::step(MsgAppend) on a follower (3 voters; log terms [1,2,3] = 2 stable + 1 unstable; symbolic term/vote/leader/commit/applied/persisted/timers/flags; message term, commit, entry types symbolic): prev=(1,1), entry terms [2, 4] - conflict at index 3, inside the unstable suffix; post-state compared with a sequence model",
       |s| c05::append_step(s, &F21T, 1, 1, &[2, 4], c05::O_TRUNC) }
-    { append_conf_stable, "C05", quick, unwind = 8,
+    { append_conf_stable, "C05,C01,C04,C14", quick, unwind = 8,
       "one Raft::step(MsgAppend) on a follower (3 voters; log terms [1,2,3] = 2 stable + 1 unstable; symbolic term/vote/leader/commit/applied/persisted/timers/flags; message term, commit, entry types symbolic): prev=(1,1), entry terms [3, 3] - conflict at index 2, inside stable storage (offset moves back, persisted falls); post-state compared with a sequence model",
       |s| c05::append_step(s, &F21T, 1, 1, &[3, 3], c05::O_TRUNC) }
-    { append_extend, "C05", quick, unwind = 8,
+    { append_extend, "C05,C01,C04,C14", quick, unwind = 8,
       "one Raft::step(MsgAppend) on a follower (3 voters; log terms [1,2,3] = 2 stable + 1 unstable; symbolic term/vote/leader/commit/applied/persisted/timers/flags; message term, commit, entry types symbolic): prev=(3,3), entry terms [3, 4] - pure extension after the last entry; post-state compared with a sequence model",
       |s| c05::append_step(s, &F21T, 3, 3, &[3, 4], c05::O_EXTEND) }
-    { append_rej_term, "C05", quick, unwind = 8,
+    { append_rej_term, "C05,C01,C04,C14", quick, unwind = 8,
       "one Raft::step(MsgAppend) on a follower (3 voters; log terms [1,2,3] = 2 stable + 1 unstable; symbolic term/vote/leader/commit/applied/persisted/timers/flags; message term, commit, entry types symbolic): prev=(2,1), entry terms [2] - prev (index,term) mismatch -> reject with hint; post-state compared with a sequence model",
       |s| c05::append_step(s, &F21T, 2, 1, &[2], c05::O_REJECT) }
-    { append_rej_beyond, "C05", quick, unwind = 8,
+    { append_rej_beyond, "C05,C01,C04,C14", quick, unwind = 8,
       "one Raft::step(MsgAppend) on a follower (3 voters; log terms [1,2,3] = 2 stable + 1 unstable; symbolic term/vote/leader/commit/applied/persisted/timers/flags; message term, commit, entry types symbolic): prev=(4,3), entry terms [3] - prev index beyond the last index -> reject; post-state compared with a sequence model",
       |s| c05::append_step(s, &F21T, 4, 3, &[3], c05::O_REJECT) }
-    { append_empty, "C05", quick, unwind = 8,
+    { append_empty, "C05,C01,C04,C14", quick, unwind = 8,
       "one Raft::step(MsgAppend) on a follower (3 voters; log terms [1,2,3] = 2 stable + 1 unstable; symbolic term/vote/leader/commit/applied/persisted/timers/flags; message term, commit, entry types symbolic): prev=(2,2), entry terms [] - empty append (commit only); post-state compared with a sequence model",
       |s| c05::append_step(s, &F21T, 2, 2, &[], c05::O_DUP) }
-    { append_prefix0, "C05", thorough, unwind = 8,
+    { append_prefix0, "C05,C01,C04,C14", thorough, unwind = 8,
       "one Raft::step(MsgAppend) on a follower (3 voters; log terms [1,2,3] = 2 stable + 1 unstable; symbolic term/vote/leader/commit/applied/persisted/timers/flags; message term, commit, entry types symbolic): prev=(0,0), entry terms [1, 2] - from index 0, duplicate prefix; post-state compared with a sequence model",
       |s| c05::append_step(s, &F21T, 0, 0, &[1, 2], c05::O_DUP) }
-    { append_conf_first, "C05", thorough, unwind = 8,
+    { append_conf_first, "C05,C01,C04,C14", thorough, unwind = 8,
       "one Raft::step(MsgAppend) on a follower (3 voters; log terms [1,2,3] = 2 stable + 1 unstable; symbolic term/vote/leader/commit/applied/persisted/timers/flags; message term, commit, entry types symbolic): prev=(0,0), entry terms [2, 2] - conflict at index 1 (requires commit = 0); post-state compared with a sequence model",
       |s| c05::append_step(s, &F21T, 0, 0, &[2, 2], c05::O_TRUNC) }
-    { append_extend_gap, "C05", thorough, unwind = 8,
+    { append_extend_gap, "C05,C01,C04,C14", thorough, unwind = 8,
       "one Raft::step(MsgAppend) on a follower (3 voters; log terms [1,2,3] = 2 stable + 1 unstable; symbolic term/vote/leader/commit/applied/persisted/timers/flags; message term, commit, entry types symbolic): prev=(2,2), entry terms [3, 5] - matching entry then extension with a term jump; post-state compared with a sequence model",
       |s| c05::append_step(s, &F21T, 2, 2, &[3, 5], c05::O_EXTEND) }
-    { append_shorter_dup, "C05", thorough, unwind = 8,
+    { append_shorter_dup, "C05,C01,C04,C14", thorough, unwind = 8,
       "one Raft::step(MsgAppend) on a follower (3 voters; log terms [1,2,3] = 2 stable + 1 unstable; symbolic term/vote/leader/commit/applied/persisted/timers/flags; message term, commit, entry types symbolic): prev=(0,0), entry terms [1] - single duplicate entry far below the tail; post-state compared with a sequence model",
       |s| c05::append_step(s, &F21T, 0, 0, &[1], c05::O_DUP) }
-    { append_rej_hint_walk, "C05", thorough, unwind = 8,
+    { append_rej_hint_walk, "C05,C01,C04,C14", thorough, unwind = 8,
       "one Raft::step(MsgAppend) on a follower (3 voters; log terms [1,2,3] = 2 stable + 1 unstable; symbolic term/vote/leader/commit/applied/persisted/timers/flags; message term, commit, entry types symbolic): prev=(3,2), entry terms [] - reject whose hint walks back over larger terms; post-state compared with a sequence model",
       |s| c05::append_step(s, &F21T, 3, 2, &[], c05::O_REJECT) }
-    { heartbeat_f21, "C05", quick, unwind = 10,
+    { heartbeat_f21, "C05,C04,C01,C16", quick, unwind = 10,
       "one Raft::step(MsgHeartbeat) on a follower: commit rule, echo of context, log untouched, stale-term reply rule",
       |s| c05::heartbeat_step(s, &F21) }
     // ---------------- (pre)candidate: vote responses (C02 / C16) ----------------
-    { dbg_map, "DBG", quick, unwind = 8, "dbg", |s| c02::dbg_map(s) }
-    { dbg_map2, "DBG", quick, unwind = 8, "dbg", |s| c02::dbg_map2(s) }
-    { dbg_rec, "DBG", quick, unwind = 8, "dbg", |s| c02::dbg_rec(s, &CAND5) }
-    { dbg_tally, "DBG", quick, unwind = 8, "dbg", |s| c02::dbg_tally(s, &CAND5) }
-    { voteresp_win3, "C02,C16", quick, unwind = 8,
+    { voteresp_win3, "C02,C16,C03", quick, unwind = 8,
       "candidate (3 voters, own vote recorded) receives a grant at its term -> leader; tally oracle; first append broadcast well-formed",
       |s| c02::voteresp_step(s, &CAND3, 2, false, false, 5) }
-    { voteresp_pending5, "C02", quick, unwind = 8,
+    { voteresp_pending5, "C02,C03", quick, unwind = 8,
       "candidate in a 5-voter group with only its own vote receives one grant -> still pending, nothing changes",
       |s| c02::voteresp_step(s, &CAND5, 2, false, false, 5) }
-    { voteresp_win5, "C02", quick, unwind = 8,
+    { voteresp_win5, "C02,C03", quick, unwind = 8,
       "candidate in a 5-voter group with two votes receives the third grant -> leader",
       |s| c02::voteresp_step(s, &CAND5_2, 2, false, false, 5) }
-    { voteresp_lose5, "C02", quick, unwind = 8,
+    { voteresp_lose5, "C02,C03", quick, unwind = 8,
       "candidate in a 5-voter group with two rejections receives the third -> follower at the same term",
       |s| c02::voteresp_step(s, &CAND5_R, 2, false, true, 5) }
-    { voteresp_joint_half, "C02,C12", quick, unwind = 8,
+    { voteresp_joint_half, "C02,C12,C03", quick, unwind = 8,
       "candidate in joint config {1,2,3}&&{1,3,4}: grant from 2 wins the incoming half only -> must stay candidate",
       |s| c02::voteresp_step(s, &CANDJ, 2, false, false, 5) }
-    { voteresp_dup_flip, "C02", quick, unwind = 8,
+    { voteresp_dup_flip, "C02,C03", quick, unwind = 8,
       "candidate whose peer 2 already rejected receives a (duplicate) grant from 2 -> the first answer stands, no leader",
       |s| c02::voteresp_step(s, &CAND3_DUP, 2, false, false, 5) }
-    { voteresp_wrong_kind, "C02,C16", quick, unwind = 8,
+    { voteresp_wrong_kind, "C02,C16,C03", quick, unwind = 8,
       "candidate receives a stale pre-vote grant -> ignored",
       |s| c02::voteresp_step(s, &CAND3, 2, true, false, 5) }
-    { voteresp_stale_term, "C02", quick, unwind = 8,
+    { voteresp_stale_term, "C02,C03", quick, unwind = 8,
       "candidate receives a grant stamped with an older term -> ignored",
       |s| c02::voteresp_step(s, &CAND3, 2, false, false, 4) }
-    { voteresp_nonvoter, "C02", quick, unwind = 8,
+    { voteresp_nonvoter, "C02,C03", quick, unwind = 8,
       "candidate receives a grant from an id that is not a voter -> does not count",
       |s| c02::voteresp_step(s, &CAND3, 5, false, false, 5) }
-    { prevoteresp_win, "C16,C02", quick, unwind = 8,
+    { prevoteresp_win, "C16,C02,C03", quick, unwind = 8,
       "pre-candidate (term 5) receives a pre-vote grant stamped 6 -> candidate at term 6, real vote requests carry the true log position",
       |s| c02::voteresp_step(s, &PRE3, 2, true, false, 6) }
-    { prevoteresp_reject_same, "C16", quick, unwind = 8,
+    { prevoteresp_reject_same, "C16,C03", quick, unwind = 8,
       "pre-candidate receives a rejection at its own term from one of two peers -> pending, term unchanged",
       |s| c02::voteresp_step(s, &PRE3, 2, true, true, 5) }
-    { prevoteresp_reject_higher, "C16", quick, unwind = 8,
+    { prevoteresp_reject_higher, "C16,C03", quick, unwind = 8,
       "pre-candidate receives a rejection carrying a higher term -> follower at that term (the only way its term rises without winning)",
       |s| c02::voteresp_step(s, &PRE3, 2, true, true, 7) }
     // ---------------- leader: append responses (C04 / C13 / C10 / C17) ----------------
-    { appresp_ack_probe, "C04,C13,C10,C17,C05,C01", quick, unwind = 8,
+    { appresp_ack_probe, "C04,C13,C10,C17,C05,C01,C20", quick, unwind = 8,
       "leader (3 voters, log 2 stable + 1 unstable, symbolic terms/commit/persisted/flags) receives an ack of index 2 from peer 2 in Probe state (matched 1, next 3): becomes Replicate, commit rule checked against a quorum oracle, emitted appends well-formed",
       |s| c04::appresp_step(s, &L21_PP, 2, 2, false, 0, 0, false, true) }
     { appresp_ack_unpersisted, "C04,C13,C06", quick, unwind = 8,
@@ -317,7 +324,7 @@ harnesses! {
       "leader: ack of index 2 = the pending snapshot index -> snapshot caught up, probing resumes after it",
       |s| c04::appresp_step(s, &L21_SNAP_DONE, 2, 2, false, 0, 0, false, true) }
     // ---------------- leader: heartbeat responses, local inputs, proposals, transfer, tick ----------------
-    { hbresp_probe_paused, "C10,C13", quick, unwind = 8,
+    { hbresp_probe_paused, "C10,C13,C20", quick, unwind = 8,
       "leader: heartbeat response from a paused probing peer that is behind: resumed, exactly one append sent",
       |s| c04::hbresp_step(s, &L21_HB_PROBE, 2) }
     { hbresp_window_full, "C10,C13", quick, unwind = 8,
@@ -329,7 +336,7 @@ harnesses! {
     { hbresp_caught_up, "C10,C13", thorough, unwind = 8,
       "leader: heartbeat response from a peer that has the whole log: nothing is sent",
       |s| c04::hbresp_step(s, &L21_HB_DONE, 2) }
-    { leader_beat, "C13,C10", quick, unwind = 8,
+    { leader_beat, "C13,C10,C05", quick, unwind = 8,
       "leader: MsgBeat -> one heartbeat per peer, commit advertised <= min(matched, commit)",
       |s| c04::local_step(s, &L21_HB_PROBE, 1, 2) }
     { leader_checkquorum_lost, "C16,C10", quick, unwind = 8,
@@ -344,7 +351,7 @@ harnesses! {
     { leader_snapstatus, "C15,C10", quick, unwind = 8,
       "leader: MsgSnapStatus (finish/failure symbolic) for a peer in Snapshot state -> probing resumes at the right index, paused until the next ack",
       |s| c04::local_step(s, &L21_HB_SNAP, 4, 2) }
-    { propose_normal, "C13,C05,C09", quick, unwind = 8,
+    { propose_normal, "C13,C05,C09,C20", quick, unwind = 8,
       "leader: proposal of one 2-byte entry, no size limit: appended with (term, last+1), broadcast to unpaused peers",
       |s| c04::propose_step(s, &L21_PROP, &[0], 2, 0, false, u64::MAX, 0) }
     { propose_limit_exact, "C13", quick, unwind = 8,
@@ -380,7 +387,7 @@ harnesses! {
     { propose_cc_enter_while_joint, "C09,C12", quick, unwind = 8,
       "leader already in a joint config: enter-joint proposal -> replaced; leave-joint accepted",
       |s| c04::propose_step(s, &L21_PROP_JOINT, &[3, 2], 0, 1, false, u64::MAX, 0) }
-    { transfer_uptodate, "C17", quick, unwind = 8,
+    { transfer_uptodate, "C17,C20", quick, unwind = 8,
       "leader: MsgTransferLeader naming a voter that holds the whole log -> MsgTimeoutNow immediately",
       |s| c04::transfer_step(s, &L21_HB_DONE, 2, None) }
     { transfer_lagging, "C17", quick, unwind = 8,
@@ -398,7 +405,7 @@ harnesses! {
     { transfer_same, "C17", thorough, unwind = 8,
       "leader: repeated transfer request to the same target -> no-op",
       |s| c04::transfer_step(s, &L21_HB_DONE, 2, Some(2)) }
-    { leader_tick_timeout, "C17,C10,C16", quick, unwind = 8,
+    { leader_tick_timeout, "C17,C10,C16,C20", quick, unwind = 8,
       "leader tick reaching election_timeout with a pending transfer: transfer abandoned; heartbeat due -> one per peer",
       |s| c04::leader_tick(s, &L21_HB_PROBE, 9, 2, true) }
     { leader_tick_quiet, "C10,C17", quick, unwind = 8,
@@ -407,7 +414,7 @@ harnesses! {
     { leader_tick_cq_lost, "C16,C10", quick, unwind = 8,
       "leader tick reaching election_timeout with check_quorum and no active peer -> steps down",
       |s| c04::leader_tick(s, &L21_CQ_LOST, 9, 0, false) }
-    { persist_ok, "C04,C06", quick, unwind = 8,
+    { persist_ok, "C04,C06,C05", quick, unwind = 8,
       "leader on_persist_entries(2, term 2) with persisted 1: persisted and own matched move to 2; commit follows the quorum oracle",
       |s| c04::persist_step(s, &L21_PERSIST, 2, 2) }
     { persist_unstable, "C04,C06", quick, unwind = 8,
@@ -420,56 +427,136 @@ harnesses! {
     { rn_vote_higher, "C06,C07,C02,C20", quick, unwind = 8,
       "RawNode follower (term 5, log [1,2,3] persisted, commit=applied=1): MsgRequestVote at term 7 with an up-to-date log -> ready/persist/advance: grant only in persisted_messages, hs carries (7, vote), must_sync, committed entries 2..=3? no: commit 1 -> none; every Ready clause checked",
       |s| rawnode::cycle(s, &RnShape::of(RF), &Input::vote(7), &Input::NONE) }
-    { rn_vote_same_term, "C06,C07,C02", quick, unwind = 8,
+    { rn_vote_same_term, "C06,C07,C02,C20", quick, unwind = 8,
       "RawNode follower whose term 5 is already persisted (vote / leader symbolic): MsgRequestVote at term 5 -> if granted the Ready differs from the persisted hard state only in the vote and must still be must_sync",
       |s| rawnode::cycle(s, &RnShape::of(RF), &Input::vote(5), &Input::NONE) }
-    { rn_append_extend, "C07,C06,C01,C05", quick, unwind = 8,
+    { rn_append_extend, "C07,C06,C01,C05,C20", quick, unwind = 8,
       "RawNode follower: MsgAppend extending the log by entry 4 with commit 4 -> Ready hands entries [4] to persist and committed entries 2..=3 (persisted ones only), advance hands 4 in the LightReady: exact, ordered, no gap/duplicate",
       |s| rawnode::cycle(s, &RnShape::of(RF), &Input::append(5, 3, 3, &[5], 4), &Input::NONE) }
-    { rn_heartbeat_commit, "C07,C01", quick, unwind = 8,
+    { rn_heartbeat_commit, "C07,C01,C20", quick, unwind = 8,
       "RawNode follower: heartbeat raising commit to 3 -> committed entries 2..=3 handed once, hs changes in commit only (must_sync false)",
       |s| rawnode::cycle(s, &RnShape::of(RF), &Input::heartbeat(5, 3), &Input::NONE) }
-    { rn_async_overwrite, "C07,C04,C14,C06", quick, unwind = 8,
+    { rn_async_overwrite, "C07,C04,C14,C06,C20", quick, unwind = 8,
       "RawNode follower with an in-flight Ready (entries 2..3 of term 1 written, fsync notice outstanding): a new leader's append overwrites 2..3 (term 2) and commits 3, then the stale notice arrives -> persisted must not move onto the new, unwritten entries; nothing unpersisted is handed out",
       |s| rawnode::async_overwrite(s, &RnShape::of(RF_ASYNC).records(&[(1, Some((3, 1)), None)], 1), &Input::append(5, 1, 1, &[2, 2], 3), 1) }
-    { rn_leader_propose, "C06,C07,C13", quick, unwind = 8,
+    { rn_leader_propose, "C06,C07,C13,C20", quick, unwind = 8,
       "RawNode leader (term persisted): propose -> Ready releases the appends immediately (leader), carrying a durable term; entries handed once; advance persists and may commit",
       |s| rawnode::cycle(s, &RnShape::of(RL_ACTIVE), &Input::propose(2), &Input::NONE) }
-    { rn_stepdown_grant, "C06,C04,C01,C02", quick, unwind = 8,
+    { rn_stepdown_grant, "C06,C04,C01,C02,C20", quick, unwind = 8,
       "RawNode that was leader at its previous Ready receives a higher-term vote request, steps down and grants in the same round -> the grant must wait for persistence (persisted_messages), not go out with the leader's immediate messages",
       |s| rawnode::cycle(s, &RnShape::of(RL), &Input::vote(7), &Input::NONE) }
-    { rn_stepdown_append, "C06,C04,C07", quick, unwind = 8,
+    { rn_stepdown_append, "C06,C04,C07,C20", quick, unwind = 8,
       "RawNode that was leader at its previous Ready is deposed by a higher-term MsgAppend carrying an entry -> its MsgAppendResponse is a persisted message",
       |s| rawnode::cycle(s, &RnShape::of(RL), &Input::append(7, 3, 2, &[7], 1), &Input::NONE) }
     { rn_singleton_campaign, "C06,C20,C02", quick, unwind = 8,
       "RawNode single voter without learners campaigns: wins in the same step; Ready contract",
       |s| rawnode::cycle(s, &RnShape::of(RS1), &Input::HUP, &Input::NONE) }
-    { rn_singleton_learner_campaign, "C06", quick, unwind = 8,
+    { rn_singleton_learner_campaign, "C06,C20", quick, unwind = 8,
       "RawNode single voter WITH a learner campaigns: it wins inside the same step and appends to the learner; those messages must not be released before the new term and self-vote are persisted",
       |s| rawnode::cycle(s, &RnShape::of(RS1L), &Input::HUP, &Input::NONE) }
-    { rn_snapshot, "C15,C07,C06", quick, unwind = 8,
+    { rn_snapshot, "C15,C07,C06,C20", quick, unwind = 8,
       "RawNode follower: MsgSnapshot (index 5 > last 3) -> Ready carries the snapshot, no committed entries, must_sync; after advance applied = commit_since = 5",
       |s| rawnode::cycle(s, &RnShape::of(RF), &Input::snapshot(5, 5, 4), &Input::NONE) }
     { rn_snapshot_then_hup, "C20,C15,C09", quick, unwind = 8,
       "RawNode follower steps MsgSnapshot and is asked to campaign before the Ready round: no panic, Ready contract holds",
       |s| rawnode::cycle(s, &RnShape::of(RF), &Input::snapshot(5, 5, 4), &Input::HUP) }
-    { dbg_deque, "DBG", quick, unwind = 8, "dbg", |s| rawnode::dbg_deque(s) }
-    { dbg_deque2, "DBG", quick, unwind = 8, "dbg", |s| rawnode::dbg_deque2(s) }
-    { dbg_persist2, "DBG", quick, unwind = 8, "dbg", |s| rawnode::dbg_persist2(s, &RnShape::of(RL)) }
-    { dbg_app, "DBG", quick, unwind = 8, "dbg", |s| rawnode::dbg_app(s, &RnShape::of(RF)) }
-    { dbg_app2, "DBG", quick, unwind = 8, "dbg", |s| rawnode::dbg_app2(s, &RnShape::of(RF)) }
-    { dbg_persist, "DBG", quick, unwind = 8, "dbg", |s| rawnode::dbg_persist(s, &RnShape::of(RL)) }
     { rn_singleton_stepdown_recampaign, "C20", quick, unwind = 8,
       "RawNode single voter leading with an unpersisted entry is told of a higher term by a node outside its configuration (a removed peer still campaigning), steps down, and campaigns again before the application has processed a Ready: must not panic",
       |s| rawnode::cycle(s, &RnShape::of(RS1_LEADER), &Input::vote(7), &Input::HUP) }
     { rn_step_rejects, "C20", quick, unwind = 8,
       "RawNode::step refuses the five local message types and responses from a non-member, state untouched",
       |s| rawnode::step_rejects(s, &RnShape::of(RF)) }
+    // ---------------- C15 snapshot install / sending ----------------
+    { snap_stale, "C15,C01", quick, unwind = 8,
+      "follower (log [1,2,3], commit 2): MsgSnapshot at index 1 < commit -> ignored, acknowledged with the commit index, nothing discarded",
+      |s| c15::snapshot_step(s, &FS, 1, 9, &[1, 2, 3], &[], &[], &[], false, false) }
+    { snap_nonmember, "C15", quick, unwind = 8,
+      "follower: MsgSnapshot whose ConfState does not list this node -> ignored",
+      |s| c15::snapshot_step(s, &FS, 5, 4, &[2, 3, 4], &[], &[], &[], false, false) }
+    { snap_matching, "C15,C01", quick, unwind = 8,
+      "follower: MsgSnapshot whose (index 3, term) already matches the local log and was not requested -> only the commit index advances, nothing is discarded",
+      |s| c15::snapshot_step(s, &FS, 3, 0, &[1, 2, 3], &[], &[], &[], false, false) }
+    { snap_matching_requested, "C15", quick, unwind = 8,
+      "follower that requested a snapshot: a matching snapshot is installed all the same",
+      |s| c15::snapshot_step(s, &FS, 3, 0, &[1, 2, 3], &[], &[], &[], true, false) }
+    { snap_install_continue, "C15,C05,C20", quick, unwind = 8,
+      "follower: MsgSnapshot at index 5 beyond the log -> installed: commit/last/boundary term/configuration/progress as if the log had been applied up to 5; a following MsgAppend at (5, term) is accepted and the log continues at 6",
+      |s| c15::snapshot_step(s, &FS, 5, 4, &[1, 2, 3], &[], &[], &[], false, true) }
+    { snap_install_joint, "C15,C12,C09", quick, unwind = 8,
+      "follower: snapshot carrying a joint configuration {1,2}&&{1,2,3} with learner 4 and staged learner 3 -> configuration reproduced exactly, node stays promotable",
+      |s| c15::snapshot_step(s, &FS, 5, 4, &[1, 2], &[1, 2, 3], &[4], &[3], false, false) }
+    { snap_install_as_learner, "C15,C09", thorough, unwind = 8,
+      "follower: snapshot listing this node as learner only -> installed, no longer promotable",
+      |s| c15::snapshot_step(s, &FS, 5, 4, &[2, 3], &[], &[1], &[], false, false) }
+    { lsnap_needed, "C15,C10,C13", quick, unwind = 8,
+      "leader over a compacted log: heartbeat response from a recently active peer whose next entries are compacted away -> MsgSnapshot, progress enters Snapshot with pending = snapshot index",
+      |s| c04::hbresp_step_snap(s, &LC_NEED, 2, true) }
+    { lsnap_inactive, "C15,C13", quick, unwind = 8,
+      "same, but the storage cannot produce a snapshot right now (SnapshotTemporarilyUnavailable) -> nothing sent, progress unchanged",
+      |s| c04::hbresp_step_snap(s, &LC_NEED, 2, false) }
+    // ---------------- C08 read index ----------------
+    { read_quorum3, "C08", quick, unwind = 8,
+      "leader of 3 (committed in its term): local read request, then a heartbeat response with the context from one peer -> quorum (self + 1): read state with the commit index recorded at request time",
+      |s| c08::leader_read(s, &L21_READ, 0, &[(2, 7)], true) }
+    { read_wrong_ctx, "C08", quick, unwind = 8,
+      "leader of 3: a heartbeat response carrying a different context does not release the read",
+      |s| c08::leader_read(s, &L21_READ, 0, &[(2, 8)], false) }
+    { read_5_one_ack, "C08", quick, unwind = 8,
+      "leader of 5: one acknowledgement (2 of 5 with self) is not a quorum -> still pending",
+      |s| c08::leader_read(s, &L5_READ, 0, &[(2, 7)], false) }
+    { read_5_two_acks, "C08", quick, unwind = 8,
+      "leader of 5: two acknowledgements -> released",
+      |s| c08::leader_read(s, &L5_READ, 0, &[(2, 7), (4, 7)], true) }
+    { read_dup_ack, "C08", quick, unwind = 8,
+      "leader of 5: the same peer acknowledging twice counts once",
+      |s| c08::leader_read(s, &L5_READ, 0, &[(2, 7), (2, 7)], false) }
+    { read_joint_half, "C08,C12", quick, unwind = 8,
+      "leader in joint config {1,2,3}&&{1,3,4}: ack from 2 is a majority of the incoming half only -> not released; with 3 as well -> released",
+      |s| c08::leader_read(s, &LJ_READ, 0, &[(2, 7)], false) }
+    { read_joint_both, "C08,C12", quick, unwind = 8,
+      "leader in joint config {1,2,3}&&{1,3,4}: acks from 2 and 3 -> majority of both halves -> released",
+      |s| c08::leader_read(s, &LJ_READ, 0, &[(2, 7), (3, 7)], true) }
+    { read_learner_ack, "C08", quick, unwind = 8,
+      "leader of 3 + learner 4: an acknowledgement from the learner does not count",
+      |s| c08::leader_read(s, &LL_READ, 0, &[(4, 7)], false) }
+    { read_forwarded, "C08", quick, unwind = 8,
+      "leader of 3: request forwarded by follower 3, ack from 2 -> MsgReadIndexResp to 3 only, nothing in the leader's own read states",
+      |s| c08::leader_read(s, &L21_READ, 3, &[(2, 7)], true) }
+    { read_not_committed_in_term, "C08", quick, unwind = 8,
+      "leader whose commit index still points at an older-term entry: read requests are dropped",
+      |s| c08::leader_read(s, &L21_READ_OLDTERM, 0, &[], false) }
+    { read_singleton, "C08", quick, unwind = 8,
+      "single-voter leader that committed in its term answers immediately with the commit index",
+      |s| c08::leader_read(s, &S1_READ, 0, &[], true) }
+    { read_singleton_not_committed, "C08", quick, unwind = 8,
+      "single-voter leader that has not yet committed in its term must not answer (no fast path before the own-term check)",
+      |s| c08::leader_read(s, &S1_READ_OLD, 0, &[], false) }
+    { read_then_stepdown, "C08,C20", quick, unwind = 8,
+      "leader with a pending read learns of a higher term: the pending read is forgotten and a late acknowledgement answers nothing",
+      |s| c08::read_then_stepdown(s, &L21_READ) }
+    { read_follower, "C08,C04,C01", quick, unwind = 8,
+      "follower: forwards MsgReadIndex to its leader (or drops it without one); MsgReadIndexResp becomes a read state with the carried index; commit moves only on a matching term (symbolic index / terms)",
+      |s| c08::follower_read(s, &F30) }
+    { stray_prevote_grant_follower, "C16,C02", quick, unwind = 8,
+      "follower (term 5) receives a delayed pre-vote grant stamped 6: ignored, its term does not move",
+      |s| c02::voteresp_step(s, &FS, 2, true, false, 6) }
+    { stray_prevote_grant_leader, "C16,C02", quick, unwind = 8,
+      "leader (term 2) receives a delayed pre-vote grant stamped 3: ignored, no step-down",
+      |s| c02::voteresp_step(s, &L21_PP, 2, true, false, 3) }
+    { hup_tick_fires, "C10,C09,C16,C03", quick, unwind = 8,
+      "follower tick with symbolic elapsed/randomized timeout: campaigns exactly when the randomized timeout is reached and the node is promotable; requests carry the true log position",
+      |s| c09::hup_step(s, &F30.with_applied(3).with_commit(3), 2) }
+    { timeoutnow_follower, "C17,C09", quick, unwind = 8,
+      "follower receiving MsgTimeoutNow campaigns at once with a real vote (never pre-vote) carrying the transfer context",
+      |s| c09::hup_step(s, &F30.with_applied(3).with_commit(3), 1) }
+    { timeoutnow_learner, "C17,C09", quick, unwind = 8,
+      "a learner (not a voter of its own configuration) ignores MsgTimeoutNow and election timeouts",
+      |s| c09::hup_step(s, &F30.with_applied(3).with_commit(3).with_conf(&[2, 3], &[], &[1], &[], false), 1) }
     // ---------------- C09 campaign gating ----------------
-    { hup_f30_pending, "C09", quick, unwind = 8,
+    { hup_f30_pending, "C09,C03,C16", quick, unwind = 8,
       "Raft::step(MsgHup) on a follower (3 voters, log of 3, applied=1, commit=3, entry 3 is a ConfChangeV2): must not campaign; symbolic term/vote/leader/timers/flags",
       |s| c09::hup_step(s, &F30.with_applied(1).with_commit(3).with_etypes(&[0, 0, 2]), 0) }
-    { hup_f30_clear, "C09", quick, unwind = 8,
+    { hup_f30_clear, "C09,C03,C16", quick, unwind = 8,
       "same with only normal entries in (applied, commit]: campaigns (pre-vote or vote per flag), requests carry true last index/term/commit",
       |s| c09::hup_step(s, &F30.with_applied(1).with_commit(3).with_etypes(&[1, 0, 0]), 0) }
     // ---------------- C11 quorum arithmetic ----------------
@@ -627,7 +714,7 @@ harnesses! {
     { cc_simple_s3l_addnode_0, "C12", quick, unwind = 8,
       "Changer::simple on voters {1,2,3} + learner 4: AddNode(0); reference-semantics equality, invariants (voters/learners disjoint, staged learners inside outgoing, >=1 voter, progress = members), <=1 voter changed for simple, quorum overlap old/new with two symbolic quorums, reject leaves everything untouched",
       |s| c12::change(s, &S3L, 0, &[0], &[&[0]]) }
-    { cc_simple_s3l_addnode_1, "C12", quick, unwind = 8,
+    { cc_simple_s3l_addnode_1, "C12", thorough, unwind = 8,
       "Changer::simple on voters {1,2,3} + learner 4: AddNode(1); reference-semantics equality, invariants (voters/learners disjoint, staged learners inside outgoing, >=1 voter, progress = members), <=1 voter changed for simple, quorum overlap old/new with two symbolic quorums, reject leaves everything untouched",
       |s| c12::change(s, &S3L, 0, &[0], &[&[1]]) }
     { cc_simple_s3l_addnode_3, "C12", quick, unwind = 8,
@@ -642,7 +729,7 @@ harnesses! {
     { cc_simple_s3l_removenode_0, "C12", quick, unwind = 8,
       "Changer::simple on voters {1,2,3} + learner 4: RemoveNode(0); reference-semantics equality, invariants (voters/learners disjoint, staged learners inside outgoing, >=1 voter, progress = members), <=1 voter changed for simple, quorum overlap old/new with two symbolic quorums, reject leaves everything untouched",
       |s| c12::change(s, &S3L, 0, &[1], &[&[0]]) }
-    { cc_simple_s3l_removenode_1, "C12", quick, unwind = 8,
+    { cc_simple_s3l_removenode_1, "C12", thorough, unwind = 8,
       "Changer::simple on voters {1,2,3} + learner 4: RemoveNode(1); reference-semantics equality, invariants (voters/learners disjoint, staged learners inside outgoing, >=1 voter, progress = members), <=1 voter changed for simple, quorum overlap old/new with two symbolic quorums, reject leaves everything untouched",
       |s| c12::change(s, &S3L, 0, &[1], &[&[1]]) }
     { cc_simple_s3l_removenode_3, "C12", quick, unwind = 8,
@@ -657,7 +744,7 @@ harnesses! {
     { cc_simple_s3l_addlearnernode_0, "C12", quick, unwind = 8,
       "Changer::simple on voters {1,2,3} + learner 4: AddLearnerNode(0); reference-semantics equality, invariants (voters/learners disjoint, staged learners inside outgoing, >=1 voter, progress = members), <=1 voter changed for simple, quorum overlap old/new with two symbolic quorums, reject leaves everything untouched",
       |s| c12::change(s, &S3L, 0, &[2], &[&[0]]) }
-    { cc_simple_s3l_addlearnernode_1, "C12", quick, unwind = 8,
+    { cc_simple_s3l_addlearnernode_1, "C12", thorough, unwind = 8,
       "Changer::simple on voters {1,2,3} + learner 4: AddLearnerNode(1); reference-semantics equality, invariants (voters/learners disjoint, staged learners inside outgoing, >=1 voter, progress = members), <=1 voter changed for simple, quorum overlap old/new with two symbolic quorums, reject leaves everything untouched",
       |s| c12::change(s, &S3L, 0, &[2], &[&[1]]) }
     { cc_simple_s3l_addlearnernode_3, "C12", quick, unwind = 8,
@@ -732,7 +819,7 @@ harnesses! {
     { cc_simple_s1_removenode_0, "C12", thorough, unwind = 8,
       "Changer::simple on single voter {1}: RemoveNode(0); reference-semantics equality, invariants (voters/learners disjoint, staged learners inside outgoing, >=1 voter, progress = members), <=1 voter changed for simple, quorum overlap old/new with two symbolic quorums, reject leaves everything untouched",
       |s| c12::change(s, &S1, 0, &[1], &[&[0]]) }
-    { cc_simple_s1_removenode_1, "C12", quick, unwind = 8,
+    { cc_simple_s1_removenode_1, "C12", thorough, unwind = 8,
       "Changer::simple on single voter {1}: RemoveNode(1); reference-semantics equality, invariants (voters/learners disjoint, staged learners inside outgoing, >=1 voter, progress = members), <=1 voter changed for simple, quorum overlap old/new with two symbolic quorums, reject leaves everything untouched",
       |s| c12::change(s, &S1, 0, &[1], &[&[1]]) }
     { cc_simple_s1_removenode_3, "C12", thorough, unwind = 8,
@@ -762,7 +849,7 @@ harnesses! {
     { cc_simple_two_learners_23, "C12", quick, unwind = 8,
       "Changer::simple on S3: ['AddLearnerNode', 'AddLearnerNode'] with ids [2, 3] (demoting two voters at once must be rejected); auto_leave symbolic; reference-semantics equality, invariants (voters/learners disjoint, staged learners inside outgoing, >=1 voter, progress = members), <=1 voter changed for simple, quorum overlap old/new with two symbolic quorums, reject leaves everything untouched",
       |s| c12::change(s, &S3, 0, &[2, 2], &[&[2, 3]]) }
-    { cc_simple_two_learners_22, "C12", quick, unwind = 8,
+    { cc_simple_two_learners_22, "C12", thorough, unwind = 8,
       "Changer::simple on S3: ['AddLearnerNode', 'AddLearnerNode'] with ids [2, 2] (demoting two voters at once must be rejected); auto_leave symbolic; reference-semantics equality, invariants (voters/learners disjoint, staged learners inside outgoing, >=1 voter, progress = members), <=1 voter changed for simple, quorum overlap old/new with two symbolic quorums, reject leaves everything untouched",
       |s| c12::change(s, &S3, 0, &[2, 2], &[&[2, 2]]) }
     { cc_simple_two_learners_45, "C12", thorough, unwind = 8,
@@ -774,7 +861,7 @@ harnesses! {
     { cc_simple_add_remove_44, "C12", quick, unwind = 8,
       "Changer::simple on S3L: ['AddNode', 'RemoveNode'] with ids [4, 4] (add and remove); auto_leave symbolic; reference-semantics equality, invariants (voters/learners disjoint, staged learners inside outgoing, >=1 voter, progress = members), <=1 voter changed for simple, quorum overlap old/new with two symbolic quorums, reject leaves everything untouched",
       |s| c12::change(s, &S3L, 0, &[0, 1], &[&[4, 4]]) }
-    { cc_simple_add_remove_53, "C12", quick, unwind = 8,
+    { cc_simple_add_remove_53, "C12", thorough, unwind = 8,
       "Changer::simple on S3L: ['AddNode', 'RemoveNode'] with ids [5, 3] (add and remove); auto_leave symbolic; reference-semantics equality, invariants (voters/learners disjoint, staged learners inside outgoing, >=1 voter, progress = members), <=1 voter changed for simple, quorum overlap old/new with two symbolic quorums, reject leaves everything untouched",
       |s| c12::change(s, &S3L, 0, &[0, 1], &[&[5, 3]]) }
     { cc_simple_add_remove_43, "C12", thorough, unwind = 8,
@@ -789,7 +876,7 @@ harnesses! {
     { cc_enter_add_remove_53, "C12", quick, unwind = 8,
       "Changer::enter_joint on S3L: ['AddNode', 'RemoveNode'] with ids [5, 3] (enter joint: add and remove); auto_leave symbolic; reference-semantics equality, invariants (voters/learners disjoint, staged learners inside outgoing, >=1 voter, progress = members), <=1 voter changed for simple, quorum overlap old/new with two symbolic quorums, reject leaves everything untouched",
       |s| c12::change(s, &S3L, 1, &[0, 1], &[&[5, 3]]) }
-    { cc_enter_add_remove_41, "C12", quick, unwind = 8,
+    { cc_enter_add_remove_41, "C12", thorough, unwind = 8,
       "Changer::enter_joint on S3L: ['AddNode', 'RemoveNode'] with ids [4, 1] (enter joint: add and remove); auto_leave symbolic; reference-semantics equality, invariants (voters/learners disjoint, staged learners inside outgoing, >=1 voter, progress = members), <=1 voter changed for simple, quorum overlap old/new with two symbolic quorums, reject leaves everything untouched",
       |s| c12::change(s, &S3L, 1, &[0, 1], &[&[4, 1]]) }
     { cc_enter_add_remove_44, "C12", thorough, unwind = 8,
@@ -804,7 +891,7 @@ harnesses! {
     { cc_enter_learner_add_33, "C12", quick, unwind = 8,
       "Changer::enter_joint on S3L: ['AddLearnerNode', 'AddNode'] with ids [3, 3] (enter joint: demote then (re-)promote); auto_leave symbolic; reference-semantics equality, invariants (voters/learners disjoint, staged learners inside outgoing, >=1 voter, progress = members), <=1 voter changed for simple, quorum overlap old/new with two symbolic quorums, reject leaves everything untouched",
       |s| c12::change(s, &S3L, 1, &[2, 0], &[&[3, 3]]) }
-    { cc_enter_learner_add_35, "C12", quick, unwind = 8,
+    { cc_enter_learner_add_35, "C12", thorough, unwind = 8,
       "Changer::enter_joint on S3L: ['AddLearnerNode', 'AddNode'] with ids [3, 5] (enter joint: demote then (re-)promote); auto_leave symbolic; reference-semantics equality, invariants (voters/learners disjoint, staged learners inside outgoing, >=1 voter, progress = members), <=1 voter changed for simple, quorum overlap old/new with two symbolic quorums, reject leaves everything untouched",
       |s| c12::change(s, &S3L, 1, &[2, 0], &[&[3, 5]]) }
     { cc_enter_learner_add_55, "C12", thorough, unwind = 8,
@@ -816,10 +903,10 @@ harnesses! {
     { cc_enter_learner_add_24, "C12", thorough, unwind = 8,
       "Changer::enter_joint on S3L: ['AddLearnerNode', 'AddNode'] with ids [2, 4] (enter joint: demote then (re-)promote); auto_leave symbolic; reference-semantics equality, invariants (voters/learners disjoint, staged learners inside outgoing, >=1 voter, progress = members), <=1 voter changed for simple, quorum overlap old/new with two symbolic quorums, reject leaves everything untouched",
       |s| c12::change(s, &S3L, 1, &[2, 0], &[&[2, 4]]) }
-    { cc_enter_remove_learner_33, "C12", quick, unwind = 8,
+    { cc_enter_remove_learner_33, "C12", thorough, unwind = 8,
       "Changer::enter_joint on S3L: ['RemoveNode', 'AddLearnerNode'] with ids [3, 3] (enter joint: remove then add as learner); auto_leave symbolic; reference-semantics equality, invariants (voters/learners disjoint, staged learners inside outgoing, >=1 voter, progress = members), <=1 voter changed for simple, quorum overlap old/new with two symbolic quorums, reject leaves everything untouched",
       |s| c12::change(s, &S3L, 1, &[1, 2], &[&[3, 3]]) }
-    { cc_enter_remove_learner_44, "C12", quick, unwind = 8,
+    { cc_enter_remove_learner_44, "C12", thorough, unwind = 8,
       "Changer::enter_joint on S3L: ['RemoveNode', 'AddLearnerNode'] with ids [4, 4] (enter joint: remove then add as learner); auto_leave symbolic; reference-semantics equality, invariants (voters/learners disjoint, staged learners inside outgoing, >=1 voter, progress = members), <=1 voter changed for simple, quorum overlap old/new with two symbolic quorums, reject leaves everything untouched",
       |s| c12::change(s, &S3L, 1, &[1, 2], &[&[4, 4]]) }
     { cc_enter_remove_learner_12, "C12", thorough, unwind = 8,
@@ -831,7 +918,7 @@ harnesses! {
     { cc_enter_learner_learner_23, "C12", quick, unwind = 8,
       "Changer::enter_joint on S3L: ['AddLearnerNode', 'AddLearnerNode'] with ids [2, 3] (enter joint: two demotions (staged learners)); auto_leave symbolic; reference-semantics equality, invariants (voters/learners disjoint, staged learners inside outgoing, >=1 voter, progress = members), <=1 voter changed for simple, quorum overlap old/new with two symbolic quorums, reject leaves everything untouched",
       |s| c12::change(s, &S3L, 1, &[2, 2], &[&[2, 3]]) }
-    { cc_enter_learner_learner_33, "C12", quick, unwind = 8,
+    { cc_enter_learner_learner_33, "C12", thorough, unwind = 8,
       "Changer::enter_joint on S3L: ['AddLearnerNode', 'AddLearnerNode'] with ids [3, 3] (enter joint: two demotions (staged learners)); auto_leave symbolic; reference-semantics equality, invariants (voters/learners disjoint, staged learners inside outgoing, >=1 voter, progress = members), <=1 voter changed for simple, quorum overlap old/new with two symbolic quorums, reject leaves everything untouched",
       |s| c12::change(s, &S3L, 1, &[2, 2], &[&[3, 3]]) }
     { cc_enter_learner_learner_45, "C12", thorough, unwind = 8,
@@ -843,7 +930,7 @@ harnesses! {
     { cc_enter_add_remove_add_555, "C12", quick, unwind = 8,
       "Changer::enter_joint on S3: ['AddNode', 'RemoveNode', 'AddNode'] with ids [5, 5, 5] (enter joint: the same untracked id added, removed and re-added in one list); auto_leave symbolic; reference-semantics equality, invariants (voters/learners disjoint, staged learners inside outgoing, >=1 voter, progress = members), <=1 voter changed for simple, quorum overlap old/new with two symbolic quorums, reject leaves everything untouched",
       |s| c12::change(s, &S3, 1, &[0, 1, 0], &[&[5, 5, 5]]) }
-    { cc_enter_add_remove_add_434, "C12", quick, unwind = 8,
+    { cc_enter_add_remove_add_434, "C12", thorough, unwind = 8,
       "Changer::enter_joint on S3: ['AddNode', 'RemoveNode', 'AddNode'] with ids [4, 3, 4] (enter joint: the same untracked id added, removed and re-added in one list); auto_leave symbolic; reference-semantics equality, invariants (voters/learners disjoint, staged learners inside outgoing, >=1 voter, progress = members), <=1 voter changed for simple, quorum overlap old/new with two symbolic quorums, reject leaves everything untouched",
       |s| c12::change(s, &S3, 1, &[0, 1, 0], &[&[4, 3, 4]]) }
     { cc_enter_add_remove_add_333, "C12", thorough, unwind = 8,
@@ -852,10 +939,10 @@ harnesses! {
     { cc_enter_add_remove_add_445, "C12", thorough, unwind = 8,
       "Changer::enter_joint on S3: ['AddNode', 'RemoveNode', 'AddNode'] with ids [4, 4, 5] (enter joint: the same untracked id added, removed and re-added in one list); auto_leave symbolic; reference-semantics equality, invariants (voters/learners disjoint, staged learners inside outgoing, >=1 voter, progress = members), <=1 voter changed for simple, quorum overlap old/new with two symbolic quorums, reject leaves everything untouched",
       |s| c12::change(s, &S3, 1, &[0, 1, 0], &[&[4, 4, 5]]) }
-    { cc_enter_learner_remove_learner_555, "C12", quick, unwind = 8,
+    { cc_enter_learner_remove_learner_555, "C12", thorough, unwind = 8,
       "Changer::enter_joint on S3: ['AddLearnerNode', 'RemoveNode', 'AddLearnerNode'] with ids [5, 5, 5] (enter joint: learner added, removed, re-added); auto_leave symbolic; reference-semantics equality, invariants (voters/learners disjoint, staged learners inside outgoing, >=1 voter, progress = members), <=1 voter changed for simple, quorum overlap old/new with two symbolic quorums, reject leaves everything untouched",
       |s| c12::change(s, &S3, 1, &[2, 1, 2], &[&[5, 5, 5]]) }
-    { cc_enter_learner_remove_learner_333, "C12", quick, unwind = 8,
+    { cc_enter_learner_remove_learner_333, "C12", thorough, unwind = 8,
       "Changer::enter_joint on S3: ['AddLearnerNode', 'RemoveNode', 'AddLearnerNode'] with ids [3, 3, 3] (enter joint: learner added, removed, re-added); auto_leave symbolic; reference-semantics equality, invariants (voters/learners disjoint, staged learners inside outgoing, >=1 voter, progress = members), <=1 voter changed for simple, quorum overlap old/new with two symbolic quorums, reject leaves everything untouched",
       |s| c12::change(s, &S3, 1, &[2, 1, 2], &[&[3, 3, 3]]) }
     { cc_enter_learner_remove_learner_434, "C12", thorough, unwind = 8,
@@ -876,19 +963,19 @@ harnesses! {
     { cc_leave_nonjoint, "C12", quick, unwind = 8,
       "leave_joint on a non-joint configuration is rejected",
       |s| c12::change(s, &S3, 2, &[], &[]) }
-    { cc_roundtrip_s3, "C12", quick, unwind = 8,
+    { cc_roundtrip_s3, "C12", thorough, unwind = 8,
       "restore(fresh tracker, to_conf_state(C)) reproduces C (sets, auto_leave, progress keys) for C = S3",
       |s| c12::round_trip(s, &S3) }
     { cc_roundtrip_s3l, "C12", quick, unwind = 8,
       "restore(fresh tracker, to_conf_state(C)) reproduces C (sets, auto_leave, progress keys) for C = S3L",
       |s| c12::round_trip(s, &S3L) }
-    { cc_roundtrip_s1, "C12", quick, unwind = 8,
+    { cc_roundtrip_s1, "C12", thorough, unwind = 8,
       "restore(fresh tracker, to_conf_state(C)) reproduces C (sets, auto_leave, progress keys) for C = S1",
       |s| c12::round_trip(s, &S1) }
     { cc_roundtrip_j1, "C12", quick, unwind = 8,
       "restore(fresh tracker, to_conf_state(C)) reproduces C (sets, auto_leave, progress keys) for C = J1",
       |s| c12::round_trip(s, &J1) }
-    { cc_roundtrip_j2, "C12", quick, unwind = 8,
+    { cc_roundtrip_j2, "C12", thorough, unwind = 8,
       "restore(fresh tracker, to_conf_state(C)) reproduces C (sets, auto_leave, progress keys) for C = J2",
       |s| c12::round_trip(s, &J2) }
     { apply_demote_transferee, "C17,C12,C09", quick, unwind = 8,
@@ -922,29 +1009,19 @@ harnesses! {
       "leader applies AddLearnerNode(itself) (still tracked as learner) and receives an ack that commits: no panic",
       |s| c12::apply_then_ack(s, &L21_BOTH, &[(2, 1)], 2, 2) }
     // ---------------- C14 RaftLog ----------------
-    { dbg1, "DBG", quick, unwind = 10, "dbg", |s| c14::dbg1(s, &L21T) }
-    { dbg2, "DBG", quick, unwind = 10, "dbg", |s| c14::dbg2(s, &L21T) }
-    { dbg_a, "DBG", quick, unwind = 5, "dbg", |s| c14::dbg_a(s) }
-    { dbg_b, "DBG", quick, unwind = 5, "dbg", |s| c14::dbg_b(s) }
-    { dbg_c, "DBG", quick, unwind = 5, "dbg", |s| c14::dbg_c(s) }
-    { dbg_d, "DBG", quick, unwind = 5, "dbg", |s| c14::dbg_d(s, &L21T) }
-    { dbg_e, "DBG", quick, unwind = 5, "dbg", |s| c14::dbg_e(s, &L21T) }
-    { dbg_f, "DBG", quick, unwind = 5, "dbg", |s| c14::dbg_f(s, &L21T) }
-    { dbg3, "DBG", quick, unwind = 5, "dbg", |s| c14::dbg3(s, &L21T) }
-    { dbg4, "DBG", quick, unwind = 5, "dbg", |s| c14::dbg4(s, &L21T) }
-    { log_append_dup, "C14,C05", quick, unwind = 8,
+    { log_append_dup, "C14,C05,C01", quick, unwind = 8,
       "RaftLog::maybe_append on log terms [1,2,3] (2 stable + 1 unstable), prev=(1,1), entries [2,3] (duplicate); symbolic committed/applied/persisted/m.commit; compared with the sequence model",
       |s| c14::maybe_append(s, &L21T, 1, 1, &[2, 3], false) }
-    { log_append_conf_stable, "C14,C05", quick, unwind = 8,
+    { log_append_conf_stable, "C14,C05,C01", quick, unwind = 8,
       "same, entries [3,3]: conflict at index 2 inside stable storage",
       |s| c14::maybe_append(s, &L21T, 1, 1, &[3, 3], true) }
-    { log_append_conf_unstable, "C14,C05", quick, unwind = 8,
+    { log_append_conf_unstable, "C14,C05,C01", quick, unwind = 8,
       "RaftLog::maybe_append, entries [2,4]: conflict at index 3 inside the unstable suffix",
       |s| c14::maybe_append(s, &L21T, 1, 1, &[2, 4], true) }
-    { log_append_extend, "C14,C05", quick, unwind = 8,
+    { log_append_extend, "C14,C05,C01", quick, unwind = 8,
       "RaftLog::maybe_append after the last entry, entries [3,4]: pure extension",
       |s| c14::maybe_append(s, &L21T, 3, 3, &[3, 4], true) }
-    { log_append_reject, "C14,C05", quick, unwind = 8,
+    { log_append_reject, "C14,C05,C01", quick, unwind = 8,
       "RaftLog::maybe_append with a prev (index, term) that is not in the log: refused, nothing changes",
       |s| c14::maybe_append(s, &L21T, 2, 1, &[2], false) }
     { log_queries, "C14,C03", quick, unwind = 8,
@@ -953,13 +1030,13 @@ harnesses! {
     { log_queries_compacted, "C14,C15", quick, unwind = 8,
       "same on a compacted log (snapshot point 7)",
       |s| c14::queries(s, &LG21B) }
-    { log_cursors, "C14,C04", quick, unwind = 8,
+    { log_cursors, "C14,C04,C01", quick, unwind = 8,
       "RaftLog::maybe_commit / commit_to / maybe_persist / applied_to with symbolic (index, term) on 2 stable + 1 unstable entries: cursors move exactly per the model, applied <= committed <= last, persisted never beyond stable storage with matching term",
       |s| c14::cursors(s, &LG21) }
-    { log_cursors_compacted, "C14,C04", thorough, unwind = 8,
+    { log_cursors_compacted, "C14,C04,C01", thorough, unwind = 8,
       "same on a compacted log (snapshot point 7)",
       |s| c14::cursors(s, &LG21B) }
-    { log_slice_limit_boundary, "C14,C13,C05", quick, unwind = 8,
+    { log_slice_limit_boundary, "C14,C13", quick, unwind = 8,
       "RaftLog::slice over the stable/unstable boundary with size limits at every prefix-sum boundary (-1, exact, +1), 0 and NO_LIMIT: entries 1..=4 (2 stable + 2 unstable), the second stable entry carries a 40-byte payload -> result is always the maximal contiguous prefix within the limit, at least one entry",
       |s| c14::slice_limit(s, &LG22, &[0, 40, 0, 0], 1, 5) }
     { log_slice_limit_unstable, "C14,C13", quick, unwind = 8,
@@ -972,7 +1049,6 @@ harnesses! {
       "RaftLog::restore(snapshot at symbolic index >= committed, symbolic term) then a stale maybe_persist, stable_snap, maybe_persist_snap: log collapses to the snapshot point, persisted never lands on the pending snapshot index",
       |s| c14::restore_seq(s, &LG21) }
     // ---------------- C19 MemStorage ----------------
-    { dbg_mem, "DBG", quick, unwind = 8, "dbg", |s| c19::dbg_mem(s) }
     { mem_append_overwrite_compact, "C19", quick, unwind = 8,
       "MemStorage: append 1..=3, overwriting append 2..=3, compact(2); then first/last/term/entries(2,4)/snapshot against the model (symbolic terms)",
       |s| c19::script(s, &[c19::append(1, 3), c19::append(2, 2), c19::compact(2)], 2, 4) }
